@@ -38,6 +38,10 @@ HAND_PAIRS = [
     ('<p>intro</p><p>outro</p>', '<p>intro</p><video controls><source src="m.mp4"><p>Your browser cannot play this <b>video</b></p></video><p>outro</p>'),
     ('<p>k</p><audio src="a.ogg"><div>old fallback</div></audio><p>z</p>', '<p>k</p><audio src="b.ogg"><div>new fallback</div></audio><p>z</p>'),
     ('<p>one <img alt="placeholder"> two <img data-original="x.png"></p>', '<p>one <img alt="placeholder"> two <img data-original="x.png"></p>'),
+    # a form control whose label is only partly changed (it must stay ONE control, with its attributes)
+    ('<h1><strong><button>... go</button></strong></h1><p hidden>x</p>', '<h1><strong><button>\u2026 go</button></strong></h1><p hidden>x</p>'),
+    ('<form><p>Name <input name="n"> <button type="submit" class="btn primary">Sign up now</button></p></form>',
+     '<form><p>Name <input name="n"> <button type="submit" class="btn primary">Sign up today</button></p></form>'),
     ('<p>Area 10\u00b2 m and CO\u2082 levels</p>', '<p>Area 102 m and CO2 levels</p>'),
     ('<ul><li>\ufb01le \uff21\uff22\uff23</li><li>5\u00b5g dose</li></ul>', '<ul><li>file ABC</li><li>5\u03bcg dose</li></ul>'),
     ('<p>caf\u00e9 stra\u00dfe Data</p>', '<p>cafe\u0301 strasse data</p>'),
@@ -86,6 +90,26 @@ def documents(rng, n, rich=True):
         else:
             out.append((a, b))
     return out + list(HAND_PAIRS)
+
+
+def real_pages():
+    """Archived versions of real web pages that ship with the repository's test fixtures (65-100 KB each), if present:
+    every version against itself, each pair in both directions, and unrelated pages against each other.  Observers only -
+    the extracted model needs minutes for a page of this size (thorough tier: one pair through the correspondence)."""
+    import glob
+    import os
+    from common import REPO
+    files = sorted(glob.glob(os.path.join(REPO, 'web_monitoring_diff', 'tests', 'fixtures', 'versions', '*')))
+    pages = []
+    for f in files:
+        try:
+            pages.append(open(f, encoding='utf-8', errors='replace').read())
+        except OSError:
+            pass
+    out = [(p, p) for p in pages]
+    for i in range(0, len(pages) - 1):
+        out += [(pages[i], pages[i + 1]), (pages[i + 1], pages[i])]
+    return out
 
 
 def big_page(n, variant=0):
